@@ -459,6 +459,9 @@ func NonEmptyRecords(n *Node, v Val) Val {
 		}
 		return out
 	case "slice":
+		if v.K == "m" {
+			return NonEmptyRecords(n.Elem, v) // a record where a list is expected is boxed: it is the one element
+		}
 		if v.K != "l" {
 			return v
 		}
@@ -762,6 +765,18 @@ func GenParseInput(r *Rng, c *GenCfg, n *Node) (v Val, missing bool) {
 		}
 		return m, false
 	case "slice":
+		if r.P(c.PBadType/2) && n.Coercer == "" {
+			// the qs/PHP spelling of a list is a record, not a list: one value like any other (boxed), the same on every run
+			m := VM()
+			for _, k := range Pick(r, [][]string{{"0", "7", "9"}, {"0", "1", "2"}, {"1", "01", "5"}, {"3"}}) {
+				ev, _ := GenParseInput(r, &GenCfg{PValid: c.PValid, NoCoerceVariants: true}, n.Elem)
+				if ev.IsNil() {
+					ev = VS("x")
+				}
+				m.M = append(m.M, KV{k, ev})
+			}
+			return m, false
+		}
 		if (r.P(0.08) || (n.Coercer != "" && r.P(0.6))) && n.Elem.IsPrim() {
 			// scalar boxing
 			ev, _ := GenParseInput(r, &GenCfg{PValid: c.PValid, NoCoerceVariants: true}, n.Elem)
@@ -774,6 +789,10 @@ func GenParseInput(r *Rng, c *GenCfg, n *Node) (v Val, missing bool) {
 		if n.Elem.IsPrim() && r.P(0.03) {
 			// long lists: two- and three-digit positions
 			ne = Pick(r, []int{11, 12, 13, 65, 66, 101, 111})
+		}
+		if n.Elem.Kind == "ptr" && n.Elem.Elem.IsPrim() && r.P(0.15) {
+			// longer lists of optional elements, some of them absent
+			ne = Pick(r, []int{8, 9, 12, 16, 17, 33})
 		}
 		for i := 0; i < ne; i++ {
 			ev, miss := GenParseInput(r, c, n.Elem)
